@@ -745,6 +745,10 @@ ExitStatus Builder::Build(string* err) {
         }
 
         if (!StartEdge(edge, err)) {
+          // The edge holds the jobserver slot acquired in FindWork() but never
+          // reached the command runner, so Cleanup() does not know about it.
+          if (jobserver_.get())
+            jobserver_->Release(std::move(edge->job_slot_));
           Cleanup();
           status_->BuildFinished();
           return ExitFailure;
